@@ -172,6 +172,10 @@ func c13Skeletons() []c13skel {
 	add("fact", "{rule:{when:canary,action:v}}", func(v interface{}) interface{} { return m("rule", m("when", C(), "action", v)) })
 	add("fact", "{rule:{when:canary,condition:v}}", func(v interface{}) interface{} { return m("rule", m("when", C(), "condition", v, "action", A())) })
 	add("fact", "{rule:{when:canary},expires:v}", func(v interface{}) interface{} { return m("rule", m("when", C(), "action", A()), "expires", v) })
+	// a valid schedule next to an expiry hole: the item expires while it is scheduled
+	add("rule", "{schedule:ok,ttl:v}", func(v interface{}) interface{} { return m("schedule", "* * * * *", "ttl", v, "action", A()) })
+	add("rule", "{schedule:ok,expires:v}", func(v interface{}) interface{} { return m("schedule", "* * * * *", "expires", v, "action", A()) })
+	add("fact", "{rule:{schedule:ok},ttl:v}", func(v interface{}) interface{} { return m("rule", m("schedule", "* * * * *", "action", A()), "ttl", v) })
 	add("rule", "{when:canary,schedule:v}", func(v interface{}) interface{} { return m("when", C(), "schedule", v, "action", A()) })
 	add("rule", "{when:canary,expires:v}", func(v interface{}) interface{} { return m("when", C(), "action", A(), "expires", v) })
 	add("fact", "{rule:{action:{code:v}}}", func(v interface{}) interface{} { return m("rule", m("when", P(), "action", m("code", v))) })
@@ -575,6 +579,12 @@ type c13outcome struct {
 
 var c13Watchdog = 15 * time.Second
 
+// c13Clk is the child's virtual clock (frozen unless a case advances it).
+var c13Clk interface {
+	Set(time.Time)
+	Advance(time.Duration)
+}
+
 // guarded runs f with recover and a watchdog.
 func c13Guarded(f func() (string, error)) c13outcome {
 	ch := make(chan c13outcome, 1)
@@ -629,6 +639,9 @@ type c13result struct {
 func c13RunCase(idx int, c c13case) (res c13result) {
 	res.Idx = idx
 	pre := fmt.Sprintf("C13/%s/%s/", c.Layer, c.Kind)
+	if c13Clk != nil {
+		c13Clk.Set(lib.T0)
+	}
 	api := c13New(c.Layer, c.Kind)
 	for _, st := range c13Setup {
 		if _, err := api.call(st.Op, lib.DeepCopy(st.Args).(map[string]interface{})); err != nil {
@@ -670,20 +683,34 @@ func c13RunCase(idx int, c c13case) (res c13result) {
 		{c13step{"facts/rem", map[string]interface{}{"id": "canary"}}, ""},
 		{c13step{"rules/list", map[string]interface{}{}}, "canary-rule"},
 	}
-	for _, cn := range canaries {
-		cn := cn
-		o := c13Guarded(func() (string, error) { return api.call(cn.st.Op, lib.DeepCopy(cn.st.Args).(map[string]interface{})) })
-		switch {
-		case o.hang:
-			res.Hang = true
-			add("location-hangs-after-input", cn.st.Op, fmt.Sprintf("after the input, canary %s did not return within %v", cn.st.Op, c13Watchdog))
-			return res
-		case o.panic != "":
-			add("location-panics-after-input", cn.st.Op+"@"+o.site, fmt.Sprintf("after the input, canary %s panicked in %s: %s", cn.st.Op, o.site, firstLine13(o.panic)))
-		case o.err != nil:
-			add("location-fails-after-input", cn.st.Op, fmt.Sprintf("after the input, canary %s failed: %v", cn.st.Op, o.err))
-		case cn.want != "" && !strings.Contains(o.out, cn.want):
-			add("location-answers-wrongly-after-input", cn.st.Op, fmt.Sprintf("after the input, canary %s returned %s (expected to contain %s)", cn.st.Op, trunc13(o.out), cn.want))
+	for round := 0; round < 2; round++ {
+		when := "after the input"
+		tag := ""
+		if round == 1 {
+			// ten virtual seconds later: whatever the input made expire has expired
+			if c13Clk == nil || !(strings.Contains(c.Skel, "ttl") || strings.Contains(c.Skel, "expires")) {
+				break
+			}
+			c13Clk.Advance(10 * time.Second)
+			when = "ten seconds after the input"
+			tag = "-later"
+		}
+		for _, cn := range canaries {
+			cn := cn
+			o := c13Guarded(func() (string, error) { return api.call(cn.st.Op, lib.DeepCopy(cn.st.Args).(map[string]interface{})) })
+			res.Calls++
+			switch {
+			case o.hang:
+				res.Hang = true
+				add("location-hangs-after-input"+tag, cn.st.Op, fmt.Sprintf("%s, canary %s did not return within %v", when, cn.st.Op, c13Watchdog))
+				return res
+			case o.panic != "":
+				add("location-panics-after-input"+tag, cn.st.Op+"@"+o.site, fmt.Sprintf("%s, canary %s panicked in %s: %s", when, cn.st.Op, o.site, firstLine13(o.panic)))
+			case o.err != nil:
+				add("location-fails-after-input"+tag, cn.st.Op, fmt.Sprintf("%s, canary %s failed: %v", when, cn.st.Op, o.err))
+			case cn.want != "" && !strings.Contains(o.out, cn.want):
+				add("location-answers-wrongly-after-input"+tag, cn.st.Op, fmt.Sprintf("%s, canary %s returned %s (expected to contain %s)", when, cn.st.Op, trunc13(o.out), cn.want))
+			}
 		}
 	}
 	return res
@@ -722,7 +749,7 @@ func init() {
 	}
 	debug.SetMaxStack(16 << 20)
 	debug.SetGCPercent(50)
-	lib.Clock()
+	c13Clk = lib.Clock()
 	go func() { // memory guard: a runaway allocation ends this child, not the sandbox
 		for {
 			time.Sleep(200 * time.Millisecond)
